@@ -523,12 +523,28 @@ func (s *segment) close() error {
 
 // Cleaned creates a cleaned segment for this segment.
 func (s *segment) Cleaned() (*segment, error) {
-	return newSegment(s.path, s.BaseOffset, s.maxBytes, false, cleanedSuffix)
+	return s.newReplacement(cleanedSuffix)
 }
 
 // Truncated creates a truncated segment for this segment.
 func (s *segment) Truncated() (*segment, error) {
-	return newSegment(s.path, s.BaseOffset, s.maxBytes, false, truncatedSuffix)
+	return s.newReplacement(truncatedSuffix)
+}
+
+// newReplacement creates an empty segment with the given suffix which is meant
+// to replace this segment. Files left behind by an interrupted clean or
+// truncate are removed first, otherwise the replacement would be appended to
+// them.
+func (s *segment) newReplacement(suffix string) (*segment, error) {
+	for _, name := range []string{
+		fmt.Sprintf(fileFormat, s.BaseOffset, logSuffix+suffix),
+		fmt.Sprintf(fileFormat, s.BaseOffset, indexSuffix+suffix),
+	} {
+		if err := os.Remove(filepath.Join(s.path, name)); err != nil && !os.IsNotExist(err) {
+			return nil, errors.Wrap(err, "failed to remove stale segment file")
+		}
+	}
+	return newSegment(s.path, s.BaseOffset, s.maxBytes, false, suffix)
 }
 
 // Replace replaces the given segment with the callee.
